@@ -93,6 +93,7 @@ func (w *World) deliver(dir string, pop bool) string {
 			pre = "-"
 		}
 	}
+	w.Emit("dlv", Ev{"n": to, "k": m.Kind}) // the message reaches the node's inbox (before its handler runs)
 	w.mu.Lock()
 	mark := len(w.evs)
 	w.mu.Unlock()
